@@ -8,6 +8,10 @@ package main
 //        same initiator, answered `QueryReply {v1: hex1, …}` (solicited only if the initiator
 //        proposed the query flag)
 //
+// <version> is the version field of the message as it goes on the wire: a decimal number up to
+// 2^64-1 (shortest CBOR head), `n/w` (head forced to a w-byte argument, w = 1,2,4,8), or
+// `x<hex>` (any CBOR item in that position).
+//
 // The real initiator (handshake.Client on a muxer for via=hs, the whole
 // ouroboros.NewConnection for via=conn) proposes the table's generated entries
 // and a scripted responder on the other end of a net.Pipe answers with the raw
@@ -306,7 +310,11 @@ func genC19(r *Rand, n int, tier string, emit func(string)) {
 		default:
 			data = g2GenData(r, dataMagic)
 		}
-		emit(fmt.Sprintf("acc %s %s %d %s %s %s %s %d %s", via, table, magic, b01(dm), b01(ps), b01(q), proposed, v, hex.EncodeToString(data)))
+		vtok := fmt.Sprint(v)
+		if r.Chance(1, 3) {
+			vtok = g2WireVersion(r, v)
+		}
+		emit(fmt.Sprintf("acc %s %s %d %s %s %s %s %s %s", via, table, magic, b01(dm), b01(ps), b01(q), proposed, vtok, hex.EncodeToString(data)))
 	}
 }
 
@@ -341,6 +349,71 @@ func genC19QueryReply(r *Rand) string {
 	return strings.TrimSpace(fmt.Sprintf("qr %s %s %d %s %s %s %s %d %s", via, table, magic, b01(r.Bool()), b01(r.Bool()), b01(q), proposed, len(parts), strings.Join(parts, " ")))
 }
 
+// g2VersionField renders the <version> token of an op as the bytes of the message field.
+func g2VersionField(tok string) ([]byte, bool) {
+	if strings.HasPrefix(tok, "x") {
+		b, err := hex.DecodeString(tok[1:])
+		return b, err == nil && len(b) > 0
+	}
+	width := 0
+	if i := strings.IndexByte(tok, '/'); i >= 0 {
+		w, err := strconv.Atoi(tok[i+1:])
+		if err != nil || (w != 1 && w != 2 && w != 4 && w != 8) {
+			return nil, false
+		}
+		width, tok = w, tok[:i]
+	}
+	n, err := strconv.ParseUint(tok, 10, 64)
+	if err != nil {
+		return nil, false
+	}
+	if width != 0 {
+		// the forced width must be able to hold the number
+		if (width == 1 && n >= 1<<8) || (width == 2 && n >= 1<<16) || (width == 4 && n >= 1<<32) {
+			return nil, false
+		}
+	}
+	return g2CborHead(0, n, width), true
+}
+
+// g2WireVersion draws the version field for an acceptance of `v`: mostly numbers that are not
+// literally v but collapse to it when narrowed to 16 bits, in every head width.
+func g2WireVersion(r *Rand, v uint16) string {
+	switch r.Intn(10) {
+	case 0, 1:
+		return fmt.Sprint(v)
+	case 2: // non-minimal encodings of the version itself
+		w := Pick(r, 2, 4, 8)
+		if v < 256 && r.Bool() {
+			w = 1
+		}
+		return fmt.Sprintf("%d/%d", v, w)
+	case 3, 4: // v + k*2^16
+		k := Pick(r, uint64(1), 1, 2, 3, 255, 65535, 1<<16, 1<<31, 1<<47)
+		return fmt.Sprint(uint64(v) + k<<16)
+	case 5:
+		n := uint64(1)<<32 + uint64(v)
+		if r.Bool() {
+			return fmt.Sprintf("%d/8", n)
+		}
+		return fmt.Sprint(n)
+	case 6:
+		return Pick(r, "18446744073709551615", "65536", "65535", "4294967295", "4294967296", fmt.Sprint(uint64(1)<<48+uint64(v)))
+	case 7: // the low 16 bits are the version, the rest random
+		return fmt.Sprint((r.U64() &^ 0xffff) | uint64(v))
+	case 8: // other items in the version position
+		bn := []byte{byte(v >> 8), byte(v)}
+		return "x" + Pick(r,
+			"c242"+hex.EncodeToString(bn),                        // bignum = v
+			"c24301"+hex.EncodeToString(bn),                      // bignum = 2^16 + v
+			"c4"+hex.EncodeToString(g2CborHead(0, uint64(v), 0)), // tagged v
+			"f6", "f4", "20", "40", "80", "fa00000000",
+			hex.EncodeToString(g2CborHead(1, uint64(v), 0)), // -1-v
+		)
+	}
+	return fmt.Sprintf("%d/8", uint64(v))
+}
+
 func runC19(op string) string {
 	f := strings.Fields(op)
 	if len(f) < 9 || (f[0] != "acc" && f[0] != "qr") {
@@ -356,13 +429,13 @@ func runC19(op string) string {
 		if len(f) != 10 {
 			return "bad-op"
 		}
-		ver, e2 := strconv.ParseUint(f[8], 10, 16)
+		verBytes, ok := g2VersionField(f[8])
 		data, e3 := hex.DecodeString(f[9])
-		if e2 != nil || e3 != nil || len(data) == 0 {
+		if !ok || e3 != nil || len(data) == 0 {
 			return "bad-op"
 		}
 		// MsgAcceptVersion = [1, version, versionData]
-		payload = append([]byte{0x83, 0x01}, g2CborHead(0, ver, 0)...)
+		payload = append([]byte{0x83, 0x01}, verBytes...)
 		payload = append(payload, data...)
 	} else {
 		n, e2 := strconv.Atoi(f[8])
